@@ -318,7 +318,9 @@ ObsValEq(sv, ov) ==
    ELSE IF sv.t = "s" \/ ov.t = "s" THEN sv.t = ov.t /\ sv.s = ov.s
    ELSE IF sv.t = "b" THEN ov.t \in {"b", "i"} /\ ov.d = 1 /\ ov.n = sv.n
    ELSE IF sv.t = "i" THEN ov.t \in {"i", "b"} /\ (IF ov.d = 1 THEN sv.n = ov.n * sv.d
-                                                     ELSE AbsI(sv.n * (1000000 \div sv.d) - ov.n) * sv.d <= sv.d + (1000000 % sv.d))
+                                                     \* |sv.n/sv.d - ov.n/10^6| <= 10^-6 without leaving 32-bit integers:
+                                                     \* sv.n*10^6 - ov.n*sv.d = sv.d*(sv.n*q - ov.n) + sv.n*r with 10^6 = q*sv.d + r
+                                                     ELSE AbsI(sv.d * (sv.n * (1000000 \div sv.d) - ov.n) + sv.n * (1000000 % sv.d)) <= sv.d)
    ELSE FALSE
 ObsRowEq(sr, or) == Len(sr) = Len(or) /\ \A i \in 1..Len(sr) : ObsValEq(sr[i], or[i])
 ObsCount(rs, or) == Cardinality({ i \in 1..Len(rs) : ObsRowEq(rs[i], or) })        \* rs spec rows, or observed row
